@@ -96,4 +96,45 @@ example :
     ∧ ((get σ1 1 [100, 105, 103, 105, 116]).bind (fun o => (lookupHeap o σ1.heap).map (·.defn)) = some (some 99)) := by
   decide
 
+/-- operations issued through SEVERAL grammar classes in any interleaving (two classes compiling rules at overlapping
+times, a module imported while another one is being imported): every step carries the class it is issued through -/
+def runTagged (alt : D → D → D) (σ : Reg D) (ops : List (ClassId × ROp D)) : Reg D :=
+  ops.foldl (fun σ p => step alt σ p.1 p.2) σ
+
+/-- **Isolation under interleaving.**  Whatever any number of OTHER grammar classes do, in whatever interleaving of their
+single registry operations: class `B` resolves every name exactly as before, and every rule object owned by none of the
+acting classes - every rule of `B`, every core rule - is unchanged.  So in an interleaved run `B`'s view of the registry
+moves at `B`'s own steps only. -/
+theorem interleaved_isolation (alt : D → D → D) (B : ClassId) :
+    ∀ (ops : List (ClassId × ROp D)) (σ : Reg D), WF σ → (∀ p ∈ ops, p.1 ≠ base ∧ p.1 ≠ B) →
+      (∀ n, get (runTagged alt σ ops) B n = get σ B n) ∧
+      (∀ o r, lookupHeap o σ.heap = some r → (∀ p ∈ ops, r.owner ≠ p.1) → lookupHeap o (runTagged alt σ ops).heap = some r) ∧
+      WF (runTagged alt σ ops)
+  | [], σ, h, _ => ⟨fun _ => rfl, fun _ _ hr _ => hr, h⟩
+  | (A, op) :: rest, σ, h, hops => by
+    have hA := hops (A, op) List.mem_cons_self
+    have f := frame_step alt h A op
+    obtain ⟨i1, i2, i3⟩ := interleaved_isolation alt B rest (step alt σ A op) f.wf
+      (fun p hp => hops p (List.mem_cons_of_mem _ hp))
+    refine ⟨?_, ?_, i3⟩
+    · intro n
+      have := i1 n
+      simp only [runTagged, List.foldl_cons] at this ⊢
+      rw [this]
+      simp only [Abnf.Registry.get]
+      rw [f.keys (B, foldName n) (fun h' => hA.2 h'.symm), f.keys (base, foldName n) (fun h' => hA.1 h'.symm)]
+    · intro o r hr hown
+      simp only [runTagged, List.foldl_cons]
+      exact i2 o r (f.objs o r hr (hown (A, op) List.mem_cons_self)) (fun p hp => hown p (List.mem_cons_of_mem _ hp))
+
+/-- non-vacuity: classes 1 and 3 define rules in turn (1, 3, 1) - also one named like a core rule; class 2 still resolves
+DIGIT to the core object and the core object is untouched. -/
+example :
+    let σ0 : Reg Nat := { map := [((0, [100, 105, 103, 105, 116]), 0)], heap := [(0, ⟨0, [68, 73, 71, 73, 84], some 7⟩)], next := 1 }
+    let σ1 := runTagged (fun a b => a + b) σ0 [(1, .def_ [120] .eq 5), (3, .def_ [68, 73, 71, 73, 84] .eq 99), (1, .def_ [120] .inc 6)]
+    (get σ1 2 [68, 73, 71, 73, 84] = some 0) ∧ ((lookupHeap 0 σ1.heap).map (·.defn) = some (some 7))
+    ∧ ((get σ1 1 [120]).bind (fun o => (lookupHeap o σ1.heap).map (·.defn)) = some (some 11))
+    ∧ (get σ1 3 [120] = none) := by
+  decide
+
 end Abnf.C10
